@@ -1,6 +1,7 @@
 // @id C01.named_logk
 // @engine B
 // @entry vfh_C01_named_logk
+// @shared_state_watch
 // @tier Q
 // @reach logk.tidied
 // @funcs Phreeqc::tidy_logk; Phreeqc::add_logks; Phreeqc::select_log_k_expression; Phreeqc::add_other_logk
